@@ -4,6 +4,7 @@ import (
 	"fmt"
 	"go/token"
 	"go/types"
+	"strings"
 
 	"golang.org/x/tools/go/ssa"
 )
@@ -43,6 +44,7 @@ func runC15(c *Ctx) {
 	r.Rule("O2", "no explicit panic reachable from a comparator", 4)
 	r.Rule("O3", "sorts of nodes are stable", 1)
 	r.Rule("O4", "sorted result rebuilt from every element (no filter in the adding loop)", 2)
+	r.Rule("O5", "sort and the comparison operators parse numbers the same way", 1)
 
 	roots := comparatorRoots(c)
 	if len(roots) < 4 {
@@ -105,6 +107,40 @@ func runC15(c *Ctx) {
 
 	ruleO3(c)
 	checkO4(c)
+	checkO5(c, reach)
+}
+
+// checkO5: the comparator behind sort and the comparator behind < <= > >= min
+// max read numbers with the same parsing functions (sibling agreement): if
+// one of them parsed `010` or `0x1F` differently the two orders would disagree.
+func checkO5(c *Ctx, reach map[*ssa.Function]*ssa.Function) {
+	r := c.R
+	sortCmp := c.libFunc("sortableNodeArray.compare")
+	opCmp := c.libFunc("compareScalars")
+	if sortCmp == nil || opCmp == nil {
+		r.Fatal("anchor missing: sortableNodeArray.compare / compareScalars")
+		return
+	}
+	parsers := func(fn *ssa.Function) map[string]bool {
+		out := map[string]bool{}
+		eachInstr(fn, func(ins ssa.Instruction) {
+			if cc := callCommon(ins); cc != nil {
+				n := shortCallee(calleeName(cc))
+				l := strings.ToLower(n)
+				if (strings.Contains(l, "parseint") || strings.Contains(l, "parsefloat") || strings.Contains(l, "parseuint") || strings.Contains(l, "atoi")) && !strings.Contains(l, "datetime") {
+					out[n] = true
+				}
+			}
+		})
+		return out
+	}
+	a, b := parsers(sortCmp), parsers(opCmp)
+	key := "compare~compareScalars/number-parsing"
+	if joinSorted(a) == joinSorted(b) && len(a) > 0 {
+		r.Discharge("O5", key, c.P.pos(sortCmp.Pos()), "both comparators read numbers with {"+joinSorted(a)+"}")
+	} else {
+		r.Finding("O5", key, c.P.pos(sortCmp.Pos()), fmt.Sprintf("the sort comparator reads numbers with {%s} but the comparison operators with {%s}: one spelling (e.g. 010, 0x1F, 1_000) is ordered differently by sort than by < / min / max", joinSorted(a), joinSorted(b)))
+	}
 }
 
 func ruleO3(c *Ctx) {
